@@ -393,13 +393,21 @@ def flatPhase3 (inShape : Option Shape) (axis : Int) (ns : List Int) : List Int 
     match allInts (pySlice s (some axis) none) with | some l => setAt ns 1 (prodInt l) | none => ns
   | none => ns
 
-/-- `Flatten2Reshape.check` → `_new_shape` (`none`: "Impossible to compute new shape").
+def hasStaticZero (inShape : Option Shape) : Bool :=
+  match inShape with
+  | some s => s.any (fun d => decide (d = .known 0))
+  | none => false
+
+/-- `Flatten2Reshape.check` → `_new_shape` (`none`: the rule does not fire).
 `axisAttr` is the `axis` attribute (default 1). -/
 def flattenTarget (inShape outShape : Option Shape) (axisAttr : Int) : Option (List Int) :=
   let rank? : Option Int := inShape.map (fun s => (s.length : Int))
   let axis : Int := match rank? with
     | some r => if axisAttr < 0 then axisAttr + r else axisAttr
     | none => axisAttr
+  -- commit 02f546a: `any(isinstance(dim, int) and dim == 0 for dim in input_shape)` fails the check
+  -- ("a 0 in the Reshape target means copy the input dim")
+  if hasStaticZero inShape then none else
   let ns := flatPhase3 inShape axis (flatPhase2 outShape (flatPhase1 axis rank?))
   if (ns.filter (· == -1)).length > 1 then none else some ns
 
@@ -408,6 +416,18 @@ def expandIdentityRule (xShape : Option Shape) (const : Option (List Int)) : Boo
   match const, xShape with
   | some t, some x => decide (x = t.map Dim.known)
   | _, _ => false
+
+/-- `ScatterAllDynamic` (`_redundant_scatter_nd.py`): the pattern asks for `Shape(data, start=0)` (the
+attribute must be present and 0), `Gather(shape, axis, axis=0)` with a constant integer `axis`; `check`
+compares `data.shape[axis]` (Python indexing) with `transposed_data.shape[0]` by `same_dim`.
+`true` = `ScatterND(transposed_data, Unsqueeze(Range(0, dim, 1)), updates)` is replaced by `Identity(updates)`. -/
+def scatterAllDynamic (startAttr : Option Int) (axis : Option Int) (data td : Option Shape) : Bool :=
+  match startAttr, axis, data, td with
+  | some 0, some a, some s, some t =>
+    (match pyIndex s a, t.head? with
+     | some d1, some d2 => sameDim d1 d2
+     | _, _ => false)
+  | _, _, _, _ => false
 
 /-! ## The ONNX specification side -/
 
@@ -555,5 +575,14 @@ def strategy3Before9477c4c (x y out : Shape) : Bool :=
   match bcastShapeBefore9477c4c x y with
   | some c => decide (c = out)
   | none => false
+
+/-- `Flatten2Reshape.check` as it was before commit 02f546a (static-zero half of finding D6). -/
+def flattenTargetBefore02f546a (inShape outShape : Option Shape) (axisAttr : Int) : Option (List Int) :=
+  let rank? : Option Int := inShape.map (fun s => (s.length : Int))
+  let axis : Int := match rank? with
+    | some r => if axisAttr < 0 then axisAttr + r else axisAttr
+    | none => axisAttr
+  let ns := flatPhase3 inShape axis (flatPhase2 outShape (flatPhase1 axis rank?))
+  if (ns.filter (· == -1)).length > 1 then none else some ns
 
 end OV.C09
